@@ -33,6 +33,7 @@ type DOp struct {
 	Kind   string `json:"kind"` // update | reload
 	Update []DJob `json:"update,omitempty"`
 	Jobs   []int  `json:"jobs,omitempty"`
+	Edit   int    `json:"edit,omitempty"` // reload: variant of a further relabel rule that matches nothing (settings of kept jobs change)
 }
 type DCase struct {
 	Ops []DOp `json:"ops"`
@@ -43,11 +44,14 @@ type DObs struct {
 	Explorer []int         `json:"explorer"`
 }
 
-func discConfig(jobs []int) (*prom.ConfigInfo, error) {
+func discConfig(jobs []int, edit int) (*prom.ConfigInfo, error) {
 	var b strings.Builder
 	b.WriteString("global:\n  scrape_interval: 15s\nscrape_configs:\n")
 	for _, j := range jobs {
 		fmt.Fprintf(&b, "- job_name: j%d\n  relabel_configs:\n  - source_labels: [dropme]\n    regex: yes\n    action: drop\n", j)
+		if edit != 0 {
+			fmt.Fprintf(&b, "  - source_labels: [nosuchlabel]\n    regex: never%d\n    action: drop\n", edit)
+		}
 	}
 	if len(jobs) == 0 {
 		b.Reset()
@@ -94,7 +98,7 @@ func runDiscCase(c *DCase) (string, []DObs, string, error) {
 	for _, op := range c.Ops {
 		switch op.Kind {
 		case "reload":
-			cfg, err := discConfig(op.Jobs)
+			cfg, err := discConfig(op.Jobs, op.Edit)
 			if err != nil {
 				return "", nil, "", err
 			}
@@ -254,7 +258,7 @@ func genDiscCase(r *Rng) *DCase {
 				js[0], js[r2] = js[r2], js[0]
 			}
 			jobs = js
-			c.Ops = append(c.Ops, DOp{Kind: "reload", Jobs: js})
+			c.Ops = append(c.Ops, DOp{Kind: "reload", Jobs: js, Edit: r.Intn(3)})
 			continue
 		}
 		op := DOp{Kind: "update"}
@@ -300,7 +304,7 @@ func genDiscCase(r *Rng) *DCase {
 
 func runDisc(a Args) *Result {
 	res := newResult("disc", a.seed, a.tier)
-	res.Rule = "random histories of full and partial discovery updates (groups with colliding targets, targets dropped by relabeling, address-less targets) and reloads that add/remove/keep/reorder jobs, through TargetsDiscovery.Run's channel, ApplyConfig and Explore.UpdateTargets/ApplyConfig; every returned map is retained and re-compared at the end (snapshot); non-trivial = contains a reload that removes a job, several dropped targets in a group, or a rejected target"
+	res.Rule = "random histories of full and partial discovery updates (groups with colliding targets, targets dropped by relabeling, address-less targets) and reloads that add/remove/keep/reorder jobs and edit the relabel rules of kept jobs, through TargetsDiscovery.Run's channel, ApplyConfig and Explore.UpdateTargets/ApplyConfig; every returned map is retained and re-compared at the end (snapshot); non-trivial = contains a reload that removes a job, several dropped targets in a group, or a rejected target"
 	rng := NewRng(a.seed)
 	n := 250
 	if a.tier == "thorough" {
